@@ -56,6 +56,10 @@ DIRECTIVE_WORDS = re.compile(
 
 def is_directive_error(err):
     msg, quoted = err
+    if "not supported yet" in msg or "unimplemented" in msg:
+        # a limitation of this compiler (e.g. compute constructs inside an
+        # OpenACC routine), not an invalid directive structure
+        return False
     return bool(DIRECTIVE_WORDS.search(msg)) or \
         quoted.lower().lstrip().startswith(("!$omp", "!$acc"))
 
